@@ -329,6 +329,12 @@ static void on_mut(const uint8_t *m, size_t n, const char *what, void *u)
     snprintf(mlabel, sizeof mlabel, "mutant of %s: %s", vf_shape(d), what);
     run_invalid(m, n, d->root_kind, mlabel);
 }
+static void on_trailing(const uint8_t *b, size_t n, int kind, const char *label, void *u)
+{
+    (void) u;
+    if (!take()) return;
+    run_invalid(b, n, kind, label);
+}
 static uint8_t *mscratch;
 static void on_doc_mut(vf_gen *g, void *u)
 {
@@ -459,6 +465,7 @@ static void worker(int w, int W, uint64_t start)
     }
     /* 3. invalid inputs (C13: false for every capacity) */
     if (P_C13) {
+        vf_trailing_inputs(on_trailing, NULL);      /* a complete root followed by 1 .. 262144 junk bytes */
         vf_tokenum e;
         for (int frame = 1; frame <= 2; frame++) {
             memset(&e, 0, sizeof e);
